@@ -314,7 +314,7 @@ func TestC07Lib(t *testing.T) {
 		return res
 	})
 
-	nRand := e.Pick(60, 2000)
+	nRand := e.Pick(60, 30000)
 	vlib.RunCases(t, "C07", "lib-random", nRand, func(c *vlib.Case) vlib.Result {
 		var res vlib.Result
 		rng := c.Rng
@@ -375,7 +375,7 @@ func TestC07Lib(t *testing.T) {
 	})
 
 	// concurrent producer while the combiner is parked between Iterate and Filter
-	nConc := e.Pick(100, 2000)
+	nConc := e.Pick(100, 20000)
 	vlib.RunCases(t, "C07", "lib-concurrent-append", nConc, func(c *vlib.Case) vlib.Result {
 		var res vlib.Result
 		rng := c.Rng
